@@ -445,16 +445,18 @@ func (x *Exec) Done(name string) bool {
 	return th != nil && th.done
 }
 
-// LiveMatching reports whether a thread whose name contains sub may still be running. During
-// teardown (free mode) spawned goroutines are not tracked, so the answer is then always true.
-func (x *Exec) LiveMatching(sub string) bool {
+// LiveDescendants reports whether a goroutine started (directly or indirectly) by the named thread
+// may still be running. During teardown (free mode) spawned goroutines are not tracked, so the
+// answer is then always true.
+func (x *Exec) LiveDescendants(name string) bool {
+	sub := name + ">"
 	if x.free.Load() || x.aborting.Load() {
 		return true
 	}
 	x.mu.Lock()
 	defer x.mu.Unlock()
 	for n, th := range x.byName {
-		if !th.done && strings.Contains(n, sub) {
+		if !th.done && strings.HasPrefix(n, sub) {
 			return true
 		}
 	}
